@@ -23,7 +23,10 @@ REQUIRED = ['C07.pool_map_schedule_indep', 'C07.getNextImfMask_spec', 'C07.getNe
             # composition with get_next_imf of the Sift model (C04) / envelopes of the Extrema model (C05)
             'C07.getNextImfMask_over_getNextImf_spec', 'C07.getNextImfMask_over_getNextImf_fixed',
             'C07.getNextImfMask_over_getNextImf_zero_amp', 'C07.getNextImfMask_pipeline_zero_amp',
-            'C07.getNextImfMask_over_getNextImf_flag']
+            'C07.getNextImfMask_over_getNextImf_flag',
+            # a zero mask FREQUENCY is a constant mask, not "no mask" (seeded C07-6); ratio_sig: every mask amplitude is the
+            # supplied ratio times the deviation of the INPUT (seeded C07-5 / C03-6: amplitudes rescaled by earlier calls)
+            'C07.getNextImfMask_zero_freq', 'C07.maskSift_ratioSig_amplitudes']
 TRUSTED = [
     'oracle: single-IMF extraction X = the real emd.sift.get_next_imf, tabulated on the masked signals of the same run '
     '(looked up by argument within 1e-9)',
